@@ -7,7 +7,7 @@
    WalletKey.from_key with a fresh id and the `used` update through every operation. *)
 From Coq Require Import ZArith Bool String List Lia.
 From Verif Require Import Lib.Bytes Gen.GenNetworks Gen.GenWalletCfg Model.WalletKeys Proofs.WalletKeys
-  Proofs.WalletKeysBook Proofs.WalletKeysIssue.
+  Proofs.WalletKeysBook Proofs.WalletKeysIssue Proofs.WalletKeysReach.
 Import ListNotations.
 Open Scope Z_scope.
 
@@ -401,30 +401,122 @@ Proof.
     + match type of H with (let (_, _) := ?cc in _) = _ => destruct cc as [ks1 [first|]] eqn:Hc end;
         [|discriminate].
       inversion H; subst. apply (Hone first); [eapply Hfirst; eauto | reflexivity].
-  - assert (Hgen : match create_chain X derive (ws_keys w) top (skipn (length (k_path top)) fullpath)
-                           {| c_net := net'; c_wt := wt'; c_purpose := purpose;
-                              c_account := _; c_change := _ |} with
-                   | (ks1, None) => (set_keys X w ks1, None)
-                   | (ks1, Some first) =>
-                       match find_id X (k_parent first) ks1, rev fullpath with
-                       | Some parent, lastel :: _ =>
-                           match create_bulk X derive ks1 parent (snd lastel) (fst lastel + 1) (next_id X ks1 + 1)
-                                             (S extra') _ with
-                           | (ks2, Some r) => (set_keys X w ks2, Some (first :: r))
-                           | (ks2, None) => (set_keys X w ks2, None)
-                           end
-                       | _, _ => (set_keys X w ks1, None)
-                       end
-                   end = (w', Some ks)).
-    { destruct (path_eqb (k_path top) fullpath); exact H. }
-    clear H.
-    match type of Hgen with (let (_, _) := ?cc in _) = _ => destruct cc as [ks1 [first|]] eqn:Hc end; [|discriminate].
-    destruct (find_id X (k_parent first) ks1) as [parent|] eqn:Hf; [|discriminate].
-    destruct (rev fullpath) as [|lastel rest] eqn:Hr; [discriminate|].
-    match type of Hgen with (let (_, _) := ?cb in _) = _ => destruct cb as [ks2 [r|]] eqn:Hb end; [|discriminate].
-    inversion Hgen; subst. destruct j as [|j'].
-    + simpl in Hj. inversion Hj; subst. rewrite (Hfirst _ _ _ Hc). unfold fullpath. do 2 f_equal. simpl. lia.
-    + simpl in Hj. eapply Hbulk; eauto.
+  - destruct (path_eqb (k_path top) fullpath);
+      (match type of H with (let (_, _) := ?cc in _) = _ => destruct cc as [ks1 [first|]] eqn:Hc end; [|discriminate];
+       destruct (find_id X (k_parent first) ks1) as [parent|] eqn:Hf; [|discriminate];
+       destruct (rev fullpath) as [|lastel rest] eqn:Hr; [discriminate|];
+       match type of H with (let (_, _) := ?cb in _) = _ => destruct cb as [ks2 [r|]] eqn:Hb end; [|discriminate];
+       inversion H; subst; destruct j as [|j'];
+       [ simpl in Hj; inversion Hj; subst; rewrite (Hfirst _ _ _ Hc); unfold fullpath; do 2 f_equal; simpl; lia
+       | simpl in Hj; eapply Hbulk; eauto ]).
+Qed.
+
+(* new_key(s): the same, from the next index of the chain on *)
+Theorem new_keys_documented_paths : forall (w : wstate) acct chg wt net n coin w' ks,
+  PInv (ws_keys w) -> wallet_shape (ws_cfg w) -> coin_of (req_net X w net acct) = Some coin ->
+  lib_new_keys X derive w acct chg wt net n = (w', Some ks) ->
+  exists purpose,
+    op_purpose (ws_cfg w) (req_wt X w wt) = Some purpose /\
+    forall j k, nth_error ks j = Some k ->
+      k_path k = doc_path (ws_cfg w) (req_wt X w wt) coin (req_acct X w net acct) chg
+                          (next_index X w purpose (req_net X w net acct) (req_acct X w net acct) (req_wt X w wt) chg
+                           + Z.of_nat j).
+Proof.
+  intros w acct chg wt net n coin w' ks HP Hsh Hcoin H. unfold lib_new_keys in H.
+  fold (req_net X w net acct) in H. fold (req_acct X w net acct) in H. fold (req_wt X w wt) in H.
+  destruct (_ && _)%bool; [discriminate|].
+  destruct (op_purpose (ws_cfg w) (req_wt X w wt)) as [purpose|] eqn:Hp; [|discriminate].
+  exists purpose. split; [reflexivity|]. intros j k Hj.
+  eapply kfp_documented_paths; eauto.
+Qed.
+
+(* ------------------------------------------------------------------ wallets made by Wallet.create have one of the two shapes *)
+Lemma kfp_cfg : forall (w : wstate) upath full lo acct ai chg wt net n,
+  ws_cfg (fst (lib_keys_for_path X derive w upath full lo acct ai chg wt net n)) = ws_cfg w.
+Proof. intros. destruct (kfp_cases X derive w upath full lo acct ai chg wt net n) as [A _]. exact A. Qed.
+
+Lemma wallet_create_cfg : forall net wt acct root rd rp ri w,
+  0 <= rd -> lib_wallet_create X derive net wt acct root rd rp ri = Some w ->
+  wallet_shape (ws_cfg w) /\ w_root_depth (ws_cfg w) = rd /\ w_root_private (ws_cfg w) = rp /\
+  w_wt (ws_cfg w) = wt /\ w_net (ws_cfg w) = net /\ w_account (ws_cfg w) = acct /\ (rd = 0 \/ rd = 3).
+Proof.
+  intros net wt acct root rd rp ri w Hrd H. unfold lib_wallet_create in H.
+  destruct (dogecoin_like net && negb (wtype_eqb wt Legacy))%bool; [discriminate|].
+  destruct (lib_key_structure wt false) as [[[tpl purpose] enc]|] eqn:Hs; [|discriminate].
+  assert (Hlh : last_hardened tpl = 3%nat) by (destruct wt; vm_compute in Hs; inversion Hs; subst; reflexivity).
+  destruct (0 <? rd) eqn:Hpos.
+  - rewrite Hlh in H. destruct (3 =? Z.to_nat rd)%nat eqn:E3; [|discriminate].
+    apply Nat.eqb_eq in E3. assert (rd = 3) by lia. subst rd.
+    match type of H with match ?kk with _ => _ end = _ => destruct kk as [w1 [r1|]] eqn:Hk; [|discriminate] end.
+    inversion H; subst w1.
+    match type of Hk with lib_keys_for_path X derive ?w0 _ _ _ _ _ _ _ _ _ = _ =>
+      pose proof (kfp_cfg w0 [] false None (Some acct) 0 0 None None 1%nat) as C end.
+    rewrite Hk in C. simpl in C.
+    rewrite C. simpl. repeat split; auto. exists tpl, enc. split; [exact Hs|]. right. split; reflexivity.
+  - assert (rd = 0) by (apply Z.ltb_ge in Hpos; lia). subst rd.
+    match type of H with match ?kk with _ => _ end = _ => destruct kk as [w1 [r1|]] eqn:Hk; [|discriminate] end.
+    inversion H; subst w1.
+    match type of Hk with lib_keys_for_path X derive ?w0 _ _ _ _ _ _ _ _ _ = _ =>
+      pose proof (kfp_cfg w0 [] false None (Some acct) 0 0 None None 1%nat) as C end.
+    rewrite Hk in C. simpl in C.
+    rewrite C. simpl. repeat split; auto. exists tpl, enc. split; [exact Hs|]. left. split; reflexivity.
+Qed.
+
+Lemma shape_account_level : forall c, wallet_shape c -> w_root_depth c = 3 -> account_level c /\ w_root_master c = false.
+Proof.
+  intros c [tpl [enc [Hs Hsh]]] Hd. destruct Hsh as [[D _]|[_ T]]; [lia|].
+  unfold account_level, w_root_master. rewrite Hd, T. split; [|apply andb_false_r].
+  split; [lia|]. destruct (w_wt c); vm_compute in Hs; inversion Hs; subst; reflexivity.
+Qed.
+
+(* every state a created wallet can reach (whichever library it mirrors), every request for address keys:
+   the keys handed out lie at the documented path of the REQUESTED witness type, network, account, change flag and
+   consecutive indices; and an account-level wallet answers only requests within its reach *)
+Theorem reachable_handed_out_documented : forall net wt acct root rd rp ri w0 g p ops acct' ai chg wt' net' coin n w' ks j k,
+  0 <= rd -> lib_wallet_create X derive net wt acct root rd rp ri = Some w0 ->
+  coin_of net' = Some coin ->
+  lib_keys_for_path X derive (run X derive (set_lib_fixes X w0 g p) ops) [] false None (Some acct') ai chg (Some wt')
+                    (Some net') n = (w', Some ks) ->
+  nth_error ks j = Some k ->
+  k_path k = (if rd =? 0 then spec_path wt' false coin acct' chg (ai + Z.of_nat j) 0
+              else spec_path_rel chg (ai + Z.of_nat j)) /\
+  (rd <> 0 -> wt' = wt /\ (g = true -> net' = net /\ acct' = acct)).
+Proof.
+  intros net wt acct root rd rp ri w0 g p ops acct' ai chg wt' net' coin n w' ks j k Hrd Hw Hcoin H Hj.
+  destruct (wallet_create_cfg _ _ _ _ _ _ _ _ Hrd Hw) as [Hsh [Hd [Hp [Hwt [Hnet [Hacct Hrd']]]]]].
+  set (w := run X derive (set_lib_fixes X w0 g p) ops) in *.
+  assert (Hcfg : ws_cfg w = ws_cfg (set_lib_fixes X w0 g p)).
+  { unfold w. apply (run_inv X derive root ops (set_lib_fixes X w0 g p)). simpl.
+    eapply wallet_create_inv; eauto. }
+  assert (Hsh' : wallet_shape (ws_cfg w)) by (rewrite Hcfg; exact Hsh).
+  assert (HP : PInv (ws_keys w)) by (eapply reachable_PInv; eauto).
+  split.
+  - rewrite (kfp_documented_paths w acct' ai chg wt' net' coin n w' ks HP Hsh' Hcoin H j k Hj).
+    unfold doc_path. rewrite Hcfg. simpl. rewrite Hd. reflexivity.
+  - intros Hnz. assert (Hrd3 : rd = 3) by (destruct Hrd'; [contradiction | assumption]).
+    assert (Hd' : w_root_depth (ws_cfg w) = 3) by (rewrite Hcfg; simpl; rewrite Hd; exact Hrd3).
+    destruct (shape_account_level _ Hsh' Hd') as [Hal Hnm].
+    assert (Hn : n <> O).
+    { intros E. subst n. unfold lib_keys_for_path in H. inversion H; subst. destruct j; discriminate. }
+    assert (Hwt' : w_wt (ws_cfg w) = wt) by (rewrite Hcfg; exact Hwt).
+    assert (Hnet' : w_net (ws_cfg w) = net) by (rewrite Hcfg; exact Hnet).
+    assert (Hacct' : w_account (ws_cfg w) = acct) by (rewrite Hcfg; exact Hacct).
+    assert (Hg : w_guard_reach (ws_cfg w) = g) by (rewrite Hcfg; reflexivity).
+    split.
+    + destruct (wtype_eqb wt' wt) eqn:E; [apply wtype_eqb_eq in E; exact E|].
+      rewrite (kfp_refuses_foreign_witness_type X derive w [] false None (Some acct') ai chg (Some wt') (Some net') n Hnm)
+        in H; [discriminate| |exact Hn].
+      unfold req_wt. simpl. rewrite Hwt'. intros F. subst wt'.
+      assert (T : wtype_eqb wt wt = true) by (apply wtype_eqb_eq; reflexivity). congruence.
+    + intros Eg. rewrite Eg in Hg.
+      destruct (String.eqb net' net) eqn:En; destruct (acct' =? acct) eqn:Ea;
+        try (apply String.eqb_eq in En; apply Z.eqb_eq in Ea; auto; fail);
+        exfalso;
+        rewrite (kfp_refuses_foreign_network_or_account X derive w [] false None (Some acct') ai chg (Some wt')
+                   (Some net') n Hg Hal Hn) in H; try discriminate.
+      * right. unfold req_acct. simpl. rewrite Hacct'. apply Z.eqb_neq. exact Ea.
+      * left. unfold req_net. simpl. rewrite Hnet'. apply String.eqb_neq. exact En.
+      * left. unfold req_net. simpl. rewrite Hnet'. apply String.eqb_neq. exact En.
 Qed.
 
 End PathProofs.
